@@ -92,7 +92,8 @@ def main():
         meta = {
             "id": sid, "property": prop, "files": files,
             "origin": "independent sub-agent given only the property text and a scratch worktree of /repo" + (" (round 2: asked for changes that exhaustive small-domain enumeration, reference-model random testing and sanitizers would not find easily)" if prefix == "S2" else "")
-                      + (" (round 3: asked for three changes of different kinds - cooperating sites, multi-step histories / object pre-states, unusual inputs or build configurations, faults at a particular point, thread interleavings - that would slip past sanitizers, exhaustive small-input enumeration, differential testing through every overload, boundary lengths, object pre-states and allocation-fault injection)" if prefix == "S3" else ""),
+                      + (" (round 3: asked for three changes of different kinds - cooperating sites, multi-step histories / object pre-states, unusual inputs or build configurations, faults at a particular point, thread interleavings - that would slip past sanitizers, exhaustive small-input enumeration, differential testing through every overload, boundary lengths, object pre-states and allocation-fault injection)" if prefix == "S3" else "")
+                      + (" (round 4: as round 3, and told that the checkers already have unsigned-char builds, operands at every alignment, errno pre-states, thread programs under ThreadSanitizer in fresh processes incl. allocation failures in some threads, post-fault comparison of unrelated results, 0x20-neighbour byte pairs, sizes to 1 MiB, SIZE_MAX output sizes, FILE* lock probes)" if prefix == "S4" else ""),
             "demo_flags": extra,
             "needs": (notes.splitlines()[0].split("needs:", 1)[1].strip() if notes.lower().startswith("needs:") else "see notes.md (the author's description of the trigger)"),
             "confirmed": ran, "demo_output_with_patch": out1[-400:],
